@@ -134,6 +134,8 @@ fn check(ctx: &Ctx, c: &Case) -> CaseResult {
     // per repo: the node has been told about the repository (own refs announced or a fetch of it
     // completed, or a restart) since its visibility last changed
     let mut notified = vec![true; 4];
+    // per repo: the step (+1) at which the node was last told, after a visibility change
+    let mut notified_at: Vec<usize> = vec![0; 4];
     // own inventory announcements (bytes) -> step at which they were first observable
     let mut inv_first_seen: std::collections::BTreeMap<Vec<u8>, usize> = Default::default();
     for a in lab.gossip_dump() {
@@ -143,6 +145,7 @@ fn check(ctx: &Ctx, c: &Case) -> CaseResult {
     }
 
     for (step, ev) in c.events.iter().enumerate() {
+        let told_before = notified.clone();
         match ev {
             Ev::Subscribe { peer, filter, since } => {
                 let i = *peer as usize;
@@ -259,7 +262,7 @@ fn check(ctx: &Ctx, c: &Case) -> CaseResult {
                 if !lab.is_connected(i) {
                     lab.connect_inbound(i);
                     let ios = lab.drain();
-                    judge(ctx, c, &lab, &rids, &notified, &inv_first_seen, step, &Ev::Connect { peer: *peer, outbound: false }, &ios)?;
+                    judge(ctx, c, &lab, &rids, &notified, &notified_at, &inv_first_seen, step, &Ev::Connect { peer: *peer, outbound: false }, &ios)?;
                 }
                 let remote = p[i];
                 let (tx, _rx) = crossbeam_channel::unbounded();
@@ -284,6 +287,11 @@ fn check(ctx: &Ctx, c: &Case) -> CaseResult {
             }
         }
 
+        for ix in 0..notified.len() {
+            if notified[ix] && (!told_before[ix] || matches!(ev, Ev::Restart)) {
+                notified_at[ix] = step + 1;
+            }
+        }
         // ---- oracle over everything written in this event
         let ios = lab.drain();
         for a in lab.gossip_dump() {
@@ -291,7 +299,17 @@ fn check(ctx: &Ctx, c: &Case) -> CaseResult {
                 inv_first_seen.entry(ann_bytes(&a)).or_insert(step + 1);
             }
         }
-        judge(ctx, c, &lab, &rids, &notified, &inv_first_seen, step, ev, &ios)?;
+        if std::env::var("VERIF_DEBUG").is_ok() {
+            for a in lab.gossip_dump() {
+                if let AnnouncementMessage::Inventory(inv) = &a.message {
+                    if a.node == lab.nid() {
+                        eprintln!("step {step} {ev:?}: stored own inventory t={} n={} first_seen={:?}", inv.timestamp, inv.inventory.len(), inv_first_seen.get(&ann_bytes(&a)));
+                    }
+                }
+            }
+            eprintln!("step {step}: {} ios", ios.len());
+        }
+        judge(ctx, c, &lab, &rids, &notified, &notified_at, &inv_first_seen, step, ev, &ios)?;
     }
     if restarted_with_private {
         ctx.count("case:restart-with-private-repos");
@@ -310,6 +328,7 @@ fn judge(
     lab: &Lab<SyncedMock>,
     rids: &[RepoId],
     notified: &[bool],
+    notified_at: &[usize],
     inv_first_seen: &std::collections::BTreeMap<Vec<u8>, usize>,
     step: usize,
     ev: &Ev,
@@ -372,10 +391,15 @@ fn judge(
                                         (Some(seen), Some(flip)) => *seen <= flip,
                                         _ => false,
                                     };
+                                    // ... or at least before the node was told about the change (signed in the
+                                    // window in which it could not know, a finding of its own)?
+                                    let signed_before_told = matches!(inv_first_seen.get(&ann_bytes(a)), Some(seen) if *seen < notified_at[ix]);
                                     let how = if !flipped {
                                         "never-public"
                                     } else if notified[ix] && signed_before_flip && matches!(ev, Ev::Subscribe { .. }) {
                                         "stored-announcement-signed-while-public-replayed"
+                                    } else if notified[ix] && signed_before_told && matches!(ev, Ev::Subscribe { .. }) {
+                                        "stored-announcement-signed-before-notification-replayed"
                                     } else if notified[ix] {
                                         "after-notified-visibility-flip"
                                     } else {
